@@ -49,23 +49,33 @@ class Cfg:
         return cls(d["name"], d["C"], [tuple(e) for e in d["epochs"]], d["chunk"], d["K"], d["classes"])
 
 
-class Msg:
-    """symbolic error book entry: the message of code `code`"""
+IDENTS = ["kz", "ka", "km"]       # kernel identifiers in the order the kernels are added: deliberately not alphabetical
 
-    def __init__(self, code):
-        self.code = code
+
+def ident(cfg, k):
+    return IDENTS[k] if cfg.K > 1 else "k0"
+
+
+class Msg:
+    """symbolic error book entry: the message of code `code` in kernel `kernel`'s book"""
+
+    def __init__(self, kernel, code):
+        self.kernel, self.code = kernel, code
 
 
 class SymBook:
+    def __init__(self, kernel):
+        self.kernel = kernel
+
     def __getitem__(self, ec):
-        return Msg(ec)
+        return Msg(self.kernel, ec)
 
 
 def kernel_classes(cfg, symbolic, codes_present=()):
     out = {}
     for k in range(cfg.K):
-        book = SymBook() if symbolic else {0: "no errors", **{int(c): f"kernel {k} message {int(c)}" for c in codes_present}}
-        out[f"k{k}"] = type(f"Kern{k}", (), {"error_book": book})
+        book = SymBook(k) if symbolic else {0: "no errors", **{int(c): f"kernel {k} message {int(c)}" for c in codes_present}}
+        out[ident(cfg, k)] = type(f"Kern{k}", (), {"error_book": book})
     return out
 
 
@@ -89,12 +99,12 @@ def build_results(cfg, codes, mk, classes):
         for start in range(0, d, cfg.chunk):
             cols = list(range(g + start, g + min(start + cfg.chunk, d)))
             z = np.zeros((cfg.C, len(cols)))
-            ti.append({f"k{k}": DefaultTransitionInfo(error_code=mk([[codes[k][c][t] for t in cols] for c in range(cfg.C)]), acceptance_prob=z, position_moved=z)
+            ti.append({ident(cfg, k): DefaultTransitionInfo(error_code=mk([[codes[k][c][t] for t in cols] for c in range(cfg.C)]), acceptance_prob=z, position_moved=z)
                        for k in range(cfg.K)})
             pos.append({"x": np.asarray([[100.0 * c + t for t in cols] for c in range(cfg.C)])})
         g += d
     return SamplingResults(positions=pos, transition_infos=ti, generated_quantities=Option(None), tuning_infos=Option(None), kernel_states=Option(None),
-                           full_model_states=Option(None), kernel_classes=Option(classes if cfg.classes else None), kernels_by_pos_key=Option({"x": "k0"}))
+                           full_model_states=Option(None), kernel_classes=Option(classes if cfg.classes else None), kernels_by_pos_key=Option({"x": ident(cfg, 0)}))
 
 
 _PATCHED = []
@@ -154,19 +164,20 @@ def goal_for_path(cfg, Z, sm, log_all, log_post):
     """z3 formula: the error log, the per-code counts and the sample info are exact (free constant cq_k = an arbitrary code)"""
     parts = []
     has_post = bool(cfg.post_cols)
-    structural(sorted(sm.error_summary) == [f"k{k}" for k in range(cfg.K)], f"kernels in the summary: {sorted(sm.error_summary)}")
-    structural(sorted(log_all) == [f"k{k}" for k in range(cfg.K)], f"kernels in the error log: {sorted(log_all)}")
+    idents = sorted(ident(cfg, k) for k in range(cfg.K))
+    structural(sorted(sm.error_summary) == idents, f"kernels in the summary: {sorted(sm.error_summary)}")
+    structural(sorted(log_all) == idents, f"kernels in the error log: {sorted(log_all)}")
     if has_post:
-        structural(log_post.is_some() and sorted(log_post.unwrap()) == [f"k{k}" for k in range(cfg.K)], "posterior error log present for every kernel")
+        structural(log_post.is_some() and sorted(log_post.unwrap()) == idents, "posterior error log present for every kernel")
     else:
         structural(not log_post.is_some(), "no posterior epoch => no posterior error log")
     for k in range(cfg.K):
-        ident = f"k{k}"
+        idk = ident(cfg, k)
         code = Z[k]
         cq = z3.Int(f"cq_{k}")
         cells = [code[c][t] for c in range(cfg.C) for t in range(cfg.T)]
         present = z3.Or(*[x == cq for x in cells])
-        items = list(sm.error_summary[ident].items())
+        items = list(sm.error_summary[idk].items())
         km = [_zi(key) == cq for key, _ in items]
         parts.append((z3.And(cq != 0, present)) == (z3.Or(*km) if km else z3.BoolVal(False)))
         if km:
@@ -176,7 +187,7 @@ def goal_for_path(cfg, Z, sm, log_all, log_post):
             want = [z3.Sum(*[z3.If(code[c][t] == cq, 1, 0) for t in range(cfg.T)]) for c in range(cfg.C)]
             body = [_zi(s.error_code) == cq] + [_zi(x) == w for x, w in zip(list(s.count_per_chain), want)]
             if cfg.classes:
-                structural(isinstance(s.error_msg, Msg), f"message {s.error_msg!r} does not come from the kernel's error book")
+                structural(isinstance(s.error_msg, Msg) and s.error_msg.kernel == k, f"message of kernel {idk!r} does not come from that kernel's own error book")
                 body.append(_zi(s.error_msg.code) == cq)
             else:
                 structural(s.error_msg == "", f"message {s.error_msg!r} although no kernel class is known")
@@ -189,8 +200,10 @@ def goal_for_path(cfg, Z, sm, log_all, log_post):
             parts.append(z3.Implies(m, z3.And(*body)))
         # the error log: exactly the transitions with a non-zero code in some chain, with their codes
         for log, cols in ((log_all, list(range(cfg.T))),) + (((log_post.unwrap(), cfg.post_cols),) if has_post else ()):
-            kel = log[ident]
-            structural(kel.kernel_ident == ident, "kernel identifier of the log entry")
+            kel = log[idk]
+            structural(kel.kernel_ident == idk, "kernel identifier of the log entry")
+            if cfg.classes:
+                structural(kel.kernel_cls.is_some() and kel.kernel_cls.unwrap().__name__ == f"Kern{k}", f"the log entry of kernel {idk!r} carries another kernel's class")
             tr = [int(v) for v in list(kel.transition)]
             structural(tr == sorted(set(tr)) and all(0 <= v < len(cols) for v in tr), f"logged transitions {tr}")
             structural(tuple(kel.error_codes.shape) == (cfg.C, len(tr)), f"logged codes have shape {tuple(kel.error_codes.shape)}")
@@ -257,11 +270,11 @@ def concrete_oracle(cfg, codes):
     for k in range(cfg.K):
         arr = codes[k]
         present = sorted({v for row in arr for v in row if v != 0})
-        out["summary"][f"k{k}"] = {c: dict(total=[sum(1 for t in range(cfg.T) if arr[ch][t] == c) for ch in range(cfg.C)],
+        out["summary"][ident(cfg, k)] = {c: dict(total=[sum(1 for t in range(cfg.T) if arr[ch][t] == c) for ch in range(cfg.C)],
                                            posterior=[sum(1 for t in cfg.post_cols if arr[ch][t] == c) for ch in range(cfg.C)] if cfg.post_cols else None) for c in present}
         for nm, cols in (("log_all", list(range(cfg.T))), ("log_post", cfg.post_cols)):
             tr = [j for j, t in enumerate(cols) if any(arr[ch][t] != 0 for ch in range(cfg.C))]
-            out[nm][f"k{k}"] = dict(transition=tr, codes=[[arr[ch][cols[j]] for j in tr] for ch in range(cfg.C)])
+            out[nm][ident(cfg, k)] = dict(transition=tr, codes=[[arr[ch][cols[j]] for j in tr] for ch in range(cfg.C)])
     out["sample_info"] = expected_sample_info(cfg)
     return out
 
@@ -284,20 +297,20 @@ def observed(cfg, sm, log_all, log_post, msg_of):
 def compare(cfg, want, got, book_msg):
     diffs = []
     for k in range(cfg.K):
-        ident = f"k{k}"
-        w, g = want["summary"][ident], got["summary"].get(ident, {})
+        idk = ident(cfg, k)
+        w, g = want["summary"][idk], got["summary"].get(idk, {})
         if sorted(w) != sorted(g):
-            diffs.append(f"{ident}: codes in the summary {sorted(g)} but stored non-zero codes {sorted(w)}")
+            diffs.append(f"{idk}: codes in the summary {sorted(g)} but stored non-zero codes {sorted(w)}")
             continue
         for c in w:
             if g[c]["total"] != w[c]["total"] or g[c]["posterior"] != w[c]["posterior"] or g[c]["code"] != c:
-                diffs.append(f"{ident} code {c}: summary total/posterior {g[c]['total']}/{g[c]['posterior']} but stored {w[c]['total']}/{w[c]['posterior']}")
+                diffs.append(f"{idk} code {c}: summary total/posterior {g[c]['total']}/{g[c]['posterior']} but stored {w[c]['total']}/{w[c]['posterior']}")
             if g[c]["msg"] != (book_msg(k, c) if cfg.classes else ""):
-                diffs.append(f"{ident} code {c}: message {g[c]['msg']!r}")
+                diffs.append(f"{idk} code {c}: message {g[c]['msg']!r} but the kernel's error book says {book_msg(k, c)!r}")
         for nm in ("log_all", "log_post"):
             if cfg.post_cols or nm == "log_all":
-                if got[nm].get(ident) != want[nm][ident]:
-                    diffs.append(f"{ident} {nm}: {got[nm].get(ident)} but stored {want[nm][ident]}")
+                if got[nm].get(idk) != want[nm][idk]:
+                    diffs.append(f"{idk} {nm}: {got[nm].get(idk)} but stored {want[nm][idk]}")
     if got["sample_info"] != want["sample_info"]:
         diffs.append(f"sample_info {got['sample_info']} but stored {want['sample_info']}")
     return diffs
